@@ -396,6 +396,36 @@ func (x *xl) expr(e ast.Expr) ([]string, string, error) {
 		if isBuilder(t) && len(y.Elts) == 0 {
 			return nil, "\"\"", nil
 		}
+		if st, ok := t.Underlying().(*types.Struct); ok && x.w.dom {
+			// a struct literal with every field given by name
+			sn, err := x.w.leanType(t)
+			if err != nil {
+				return nil, "", x.errf(e, "%v", err)
+			}
+			if len(y.Elts) != st.NumFields() {
+				return nil, "", x.errf(e, "struct literal that does not name every field")
+			}
+			var bs, fs []string
+			for _, el := range y.Elts {
+				kv, ok := el.(*ast.KeyValueExpr)
+				if !ok {
+					return nil, "", x.errf(e, "positional struct literal")
+				}
+				fid := kv.Key.(*ast.Ident)
+				var ft types.Type
+				for i := 0; i < st.NumFields(); i++ {
+					if st.Field(i).Name() == fid.Name {
+						ft = st.Field(i).Type()
+					}
+				}
+				b, v, err := x.exprTo(kv.Value, ft, false)
+				if err != nil {
+					return nil, "", err
+				}
+				bs, fs = append(bs, b...), append(fs, leanField(fid.Name)+" := "+v)
+			}
+			return bs, "({ " + strings.Join(fs, ", ") + " } : " + sn + ")", nil
+		}
 		return nil, "", x.errf(e, "composite literal of type %s", t)
 	}
 	return nil, "", x.errf(e, "expression %T", e)
@@ -451,7 +481,7 @@ func (x *xl) selector(y *ast.SelectorExpr) ([]string, string, error) {
 		if err != nil {
 			return nil, "", err
 		}
-		return b, s + "." + y.Sel.Name, nil
+		return b, s + "." + leanField(y.Sel.Name), nil
 	}
 	return nil, "", x.errf(y, "selector %s", y.Sel.Name)
 }
@@ -837,6 +867,12 @@ func (x *xl) call(c *ast.CallExpr) ([]string, string, error) {
 			"slices.Index":      {"Go.slicesIndex", 2},
 			"slices.Contains":   {"Go.slicesContains", 2},
 			"strconv.Atoi":      {"Go.atoi", 1},
+		}
+		if x.w.dom {
+			prims["github.com/google/go-cmp/cmp.Equal"] = struct {
+				lean  string
+				nargs int
+			}{"GoDom.cmpEqual", 2}
 		}
 		p, ok := prims[key]
 		if !ok || len(c.Args) != p.nargs {
